@@ -1,13 +1,15 @@
 """C20 — the gym adapter is a faithful view of the wrapped environment.
 See DESIGN.md §2 C20."""
 from .. import boot  # noqa: F401
+import copy
 import os
 
 import gym
 import numpy as np
 
 from gym_gridverse import gym as gv_gym
-from gym_gridverse.envs.yaml.factory import factory_env_from_yaml
+from gym_gridverse.action import Action
+from gym_gridverse.envs.yaml.factory import factory_env_from_data, factory_env_from_yaml
 from gym_gridverse.outer_env import OuterEnv
 from gym_gridverse.representations.observation_representations import make_observation_representation
 from gym_gridverse.representations.state_representations import make_state_representation
@@ -78,7 +80,31 @@ class Spy:
         return self._orig(action)
 
 
-def build(route, name, path):
+def varied(name, path, seed):
+    """the shipped configuration with its actions listed in another order (indices follow the configured order, not the
+    order of the Action enum) and, every other time, a stochastic observation function behind the adapter"""
+    rng = gen.rng_for('C20varied', name, seed)
+    data = compose.load_yaml(path)
+    actions = list(data.get('action_space') or [a.name for a in Action])
+    rng.shuffle(actions)
+    if rng.random() < 0.3 and len(actions) > 3:
+        actions = actions[: rng.randint(3, len(actions) - 1)]
+    if 'MOVE_FORWARD' not in actions:
+        actions[0] = 'MOVE_FORWARD'
+    data['action_space'] = actions
+    obs = data['observation_function']
+    if seed % 2 == 0 and 'area' in obs:
+        data['observation_function'] = {'name': 'stochastic_raytracing', 'area': obs['area']}
+    return data
+
+
+def build(route, name, path, data=None):
+    if route == 'varied':
+        inner = factory_env_from_data(copy.deepcopy(data))
+        outer = OuterEnv(inner, observation_representation=make_observation_representation('default', inner.observation_space),
+                         state_representation=(make_state_representation('default', inner.state_space)
+                                               if inner.state_space.can_be_represented else None))
+        return gv_gym.GymEnvironment(outer), None
     if route == 'direct':
         inner = factory_env_from_yaml(path)
         outer = OuterEnv(inner, observation_representation=make_observation_representation('default', inner.observation_space),
@@ -99,7 +125,8 @@ def build(route, name, path):
 def run_route(ctx, route, name, path, seed, nsteps):
     payload = {'config': name, 'route': route, 'seed': seed, 'nsteps': nsteps}
     label = f'{name} via {route} seed={seed}'
-    ok, built = call_real(build, route, name, path)
+    data = varied(name, path, seed) if route == 'varied' else None
+    ok, built = call_real(build, route, name, path, data)
     if not ok:
         ctx.violation('adapter', f'build.{route}', f'{label}: building raised {describe_exc(built)}', 'gym_case', payload)
         return
@@ -112,7 +139,7 @@ def run_route(ctx, route, name, path, seed, nsteps):
         ctx.violation('adapter', 'build.not_a_GymEnvironment', f'{label}: {type(genv).__name__}', 'gym_case', payload)
         return
     # the twin is assembled by hand from the yaml/ copy (independent of the factory and of any caching in it)
-    twin = compose.build_env(compose.load_yaml(path))
+    twin = compose.build_env(copy.deepcopy(data) if data is not None else compose.load_yaml(path))
     genv.outer_env.inner_env.set_seed(seed)
     twin.set_seed(seed)
     spy = Spy(genv.outer_env)
@@ -318,7 +345,7 @@ def run(ctx):
         job = 0
         nsteps = ctx.pick(100, 500)
         for name, path, data in compose.shipped_configs():
-            for route in ('direct', 'entry_point', 'gym_make'):
+            for route in ('direct', 'entry_point', 'gym_make', 'varied'):
                 for s in range(ctx.pick(1, 12)):
                     job += 1
                     if not ctx.mine(job):
